@@ -116,6 +116,9 @@ def run_C06(ctx, R):
     da.rule_placement(ctx, R, E.NR, E.BR, rules={"DA-EDGE", "DA-BASE", "B-BASE", "KNOB-SAN"})
     da.rule_find_base(ctx, R, E.NR, E.BR)
     da.rule_sanitiser(ctx, R, E.NR, E.BR)
+    # ... which rests on the helper's used-base / used-index bookkeeping (a forgotten used-base flag lets two states share a BASE:
+    # the search then reports text that is no registered pattern)
+    helper.rule_helper(ctx, R)
     # "before and after a serialization round trip"
     ser.rule_ser(ctx, R)
     acc.rule_accessors(ctx, R)
@@ -252,8 +255,11 @@ def run_C15(ctx, R):
     da.rule_sanitiser(ctx, R, E.NR, E.BR)
     da.rule_find_base(ctx, R, E.NR, E.BR)
     da.rule_array_growth(ctx, R, E.NR, E.BR)
-    nfa.rule_add(ctx, R, E.NR, rules={"STAT-NS", "STAT-SHADOW"})
+    nfa.rule_add(ctx, R, E.NR, rules={"STAT-NS", "STAT-SHADOW", "NFA-LF"})       # shadowed patterns create no states
     da.rule_build_entry(ctx, R, E.NR, E.BR, rules={"STAT-NS"})
+    # ... and on the helper's slot bookkeeping (a slot taken without being flagged used is stamped over by the sanitiser: the
+    # state placed there is counted but unreachable)
+    helper.rule_helper(ctx, R)
 
 
 def run_C16(ctx, R):
@@ -341,7 +347,7 @@ def anchors_of(crates):
                 a.add(b.path)
     NR = E0.NR
     if NR.ok:
-        for b in [NR.add, NR.new, NR.child_id, NR.outputs_pass] + list(NR.fail_passes):
+        for b in [NR.add, NR.new, NR.outputs_pass] + list(NR.fail_passes):
             if b is not None:
                 a.add(b.path)
         BR = E0.BR
